@@ -343,8 +343,10 @@ fn exec_euclid(case: &Value) -> Value {
             vals.push(v);
         }
     }
-    if rounded {
-        assert!(vals.iter().all(|v| v.fract() == 0.));
+    if rounded && !vals.iter().all(|v| v.fract() == 0.) {
+        // a rounded matrix with a non-integral entry: reported to the driver (oracle `rounded_entries_integral`), not asserted
+        json!({"ids": ids, "size": n, "same": same, "non_integral": true, "bits": vals.iter().map(|v| v.to_bits()).collect::<Vec<_>>()})
+    } else if rounded {
         json!({"ids": ids, "size": n, "same": same, "m": vals.iter().map(|v| *v as i64).collect::<Vec<_>>()})
     } else {
         json!({"ids": ids, "size": n, "same": same, "bits": vals.iter().map(|v| v.to_bits()).collect::<Vec<_>>()})
